@@ -128,6 +128,20 @@ func hintReaderSync(reader *hintFileReader) bool {
 // reader in sync with its logical offset (precondition of next) — the condition under which the
 // end-of-items test of next is meaningful and an absent key ends with (nil, nil) instead of an
 // error from reading into the index rows.
+// step assertion of the lookup: the scan starts at the header or at an index entry whose key hash
+// is strictly smaller than the wanted one. Items are sorted by key hash and an index entry carries
+// the hash of the item at its offset, so everything before such an entry is smaller too and no
+// matching item is skipped (with <=, members of a same-hash group before the entry would be).
+func lemmaScanStart(arr []hintIndexItem, j int, keyhash uint64, offset int64) bool { return true }
+
+//@ func lemmaScanStart
+//@   props C14
+//@   ints math
+//@   requires 0 <= j && j <= len(arr)
+//@   requires j > 1 ==> offset == arr[j-1].offset && arr[j-1].keyhash < keyhash
+//@   requires j <= 1 ==> offset == 16
+//@   ensures result0
+
 //@ func (idx *hintFileIndex) get
 //@   props C14
 //@   ints math
@@ -136,4 +150,5 @@ func hintReaderSync(reader *hintFileReader) bool {
 //@   requires forall(0, len(idx.index), func(i int) bool { return 16 <= idx.index[i].offset && int(idx.index[i].offset) <= pathFileSize(idx.path) })   // index rows point into the file
 //@   modifies *
 //@   ensures item != nil ==> err == nil && item.Keyhash == keyhash && item.Key == key
+//@   ghost after open#1: lemmaScanStart(arr, j, keyhash, offset)
 //@   loop 1 invariant reader != nil && hintReaderSync(reader) && 0 <= reader.offset && int(reader.offset) <= fileSize(reader.fd) && item == nil
